@@ -58,6 +58,37 @@ def to_lemmas(case):
         prove("chain.unit", via.unit == direct.unit)
 
 
+@unit("C08", "Array.to.history", targets=[ARR + ":Array.to", ARR + ":Array.unit"],
+      cases=[{"label": "convert,relabel,convert"}, {"label": "convert,inplace_multiply,convert"}], replay=N.replay_to_history,
+      inline=["Units.__call__", "Array.__init__"])
+def to_history(case):
+    """the result of to() depends on the array's current values and unit only, not on earlier conversions"""
+    Array = O().Array
+    dims = A.Dims()
+    a = A.mk_array("a", dims, "1d")
+    target = spint.sym_unit("ut", family=None)
+    try:
+        a.to(target)
+    except spint.DimensionalityError:
+        pass
+    u2 = spint.sym_unit("u2")
+    if case["label"].startswith("convert,relabel"):
+        a.unit = u2
+    else:
+        a._unit = u2  # what an in-place operation does to the unit (Array._wrap_numpy, out=)
+        a.unit = u2
+    snap = A.snapshot(a)
+    try:
+        r = a.to(target)
+    except spint.DimensionalityError:
+        prove("raises_only_if_dim_differs", ~u2.same_dim(target))
+        return
+    prove("no_raise_implies_same_dim", u2.same_dim(target))
+    idx = A.skolem_index(a.shape)
+    prove("same_quantity_as_current_state", r._array.elem(idx) * target.scale == snap["elem"](idx) * u2.scale)
+    prove("unit_is_requested", r.unit == target)
+
+
 @unit("C08", "Vector.to", targets=[VEC + ":Vector.to"], uses=["Array.to"],
       cases=[{"label": "nvec=%d" % n, "nvec": n} for n in (1, 2, 3)], replay=N.replay_vector_to,
       inline=["Vector.__init__", "Vector._xyz", "Vector._validate_component"])
